@@ -204,6 +204,8 @@ class Exec:
             st.assume(z3.And(v.rows >= 0, v.cols >= 0))
         elif isinstance(t, ty.MapT) and isinstance(v, ty.MapV) and v.keys is not None:
             st.assume(v.keys.len >= 0)
+            from . import maplib
+            maplib.assume_map_wf(st, v)
 
     def to_storable(self, v):
         if isinstance(v, PyList):
@@ -1276,6 +1278,10 @@ class Exec:
             ext = self.lib.obj_attr(self, st, obj, attr, node)
             if ext is not None:
                 return ext
+            for cname in [obj.cls] + [ci.name for ci in self.ix.mro(obj.cls)]:
+                cc = self.reg.get(f"callable:{cname}.{attr}")
+                if cc is not None:
+                    return [Out("val", Intrinsic(cc.qualname, lambda ex_, st_, a, k, n, _c=cc: ex_.apply_callable_contract(_c, a, k, st_, n)), st)]
             raise Unsupported(f"attribute {obj.cls}.{attr} (no schema field, method or class constant)", node)
         if isinstance(obj, SuperV):
             ci = self.ix.cls(obj.cls)
@@ -1576,12 +1582,24 @@ class Exec:
                     out[n] = self.coerce(t, vv, node)
         return out
 
-    def apply_contract(self, c: Contract, fi: FuncInfo, args, kwargs, st, node, iface_only=False, def_frame=None):
+    def apply_callable_contract(self, c: Contract, args, kwargs, st, node):
+        """A call through a field that holds user-supplied code (sort function, estimator): the assumed contract registered as
+        "callable:<Class>.<field>" is applied; parameters are bound positionally in declaration order."""
+        names = list(c.params)
+        if len(args) > len(names):
+            raise Unsupported(f"too many arguments for {c.qualname}", node)
+        bound = dict(zip(names, args))
+        bound.update(kwargs)
+        fi = FuncInfo(qualname=c.qualname, module="", cls=None, node=ast.parse(f"def {c.qualname.split('.')[-1]}(): pass").body[0], path="")
+        return self.apply_contract(c, fi, args, kwargs, st, node, bound=bound)
+
+    def apply_contract(self, c: Contract, fi: FuncInfo, args, kwargs, st, node, iface_only=False, def_frame=None, bound=None):
         self.stats["calls_by_contract"] += 1
         self.contracts_used.add(c.qualname + (f"@{c.extra.get('recv')}" if c.extra.get("recv") else ""))
         if c.assumed:
             self.assumed_used.add(c.qualname)
-        bound = self.bind_args(fi, args, kwargs, st, node)
+        if bound is None:
+            bound = self.bind_args(fi, args, kwargs, st, node)
         self._cur_call_state = st
         targs = self.typed_args(c, fi, bound, node)
         for cn, ct in (c.extra.get("closure") or {}).items():
